@@ -477,3 +477,66 @@ def case_cuboid(ctx, cfg):
             if not pts_match(as_arrays(r), want):
                 ctx.fail(f"polyhedron-{tag}:points", "intersect", inputs, [[str(t) for t in w] for w in want], as_arrays(r))
                 return
+
+
+# ---------------------------------------------------------------------------------------------------
+# history: the original polytope after objects were derived from it, and the derived one after earlier queries
+
+
+def enum_history(tier, seed):
+    for name in ("square", "dart"):
+        for emb in ("z=1", "generic"):
+            yield (name, emb)
+
+
+@family("C18", "intersect_after_derivation", enum_history)
+def case_history(ctx, cfg):
+    import geometer as G
+
+    name, emb = cfg
+    poly = SL.POLYGONS[name]
+    V3 = [SL.embed(emb, *v) for v in poly]
+    nrm = SL.normal(emb)
+    P0 = G.Polygon(*[P(G, v) for v in V3])
+    shift = (3, -2, 1)
+    lines = []
+    for q2 in SL.half_grid(poly)[::5]:
+        base = SL.embed(emb, *q2)
+        p = [F(b) - F(x) for b, x in zip(base, nrm)]
+        q = [F(b) + 2 * F(x) for b, x in zip(base, nrm)]
+        lines.append((p, q, line_polygon3_exact(V3, p, q, False)))
+
+    def check(Pg, offset, tag):
+        for p, q, rel in lines:
+            pp = [a + b for a, b in zip(p, offset)]
+            qq = [a + b for a, b in zip(q, offset)]
+            want = [[a + b for a, b in zip(rel[1], offset)]] if rel[0] == "point" else []
+            r, e = ctx.call(Pg.intersect, G.Line(P(G, pp), P(G, qq)))
+            ctx.trace()
+            ctx.state((name, emb, tag, tuple(map(str, p))))
+            if e is not None or not pts_match(as_arrays(r), want):
+                ctx.fail(f"polygon3d-line:{tag}", "intersect", {"polygon": name, "embedding": emb, "history": tag}, [[str(x) for x in w] for w in want], e if e is not None else as_arrays(r))
+                return False
+        return True
+
+    if not check(P0, (0, 0, 0), "fresh"):
+        return
+    _ = ctx.call(lambda: (P0.area, P0.edges, P0.centroid))
+    Pt = G.translation(*shift) * P0
+    Pr = G.rotation(0.5, axis=G.Point(1, 1, 0)) * P0
+    Pa = P0 + G.Point(*shift)
+    if not check(Pt, shift, "transformed-after-queries"):
+        return
+    if not check(Pa, shift, "shifted-by-point-after-queries"):
+        return
+    if not check(P0, (0, 0, 0), "original-after-derivations"):
+        return
+    C = G.Cuboid(G.Point(0, 0, 0), G.Point(2, 0, 0), G.Point(0, 2, 0), G.Point(0, 0, 2))
+    L = G.Line(G.Point(1, 1, -1), G.Point(1, 1, 3))
+    r0, e0 = ctx.call(C.intersect, L)
+    Ct = G.translation(5, 0, 0) * C
+    r1, e1 = ctx.call(Ct.intersect, G.Line(G.Point(6, 1, -1), G.Point(6, 1, 3)))
+    r2, e2 = ctx.call(C.intersect, L)
+    ok = e0 is None and e1 is None and e2 is None and pts_match(as_arrays(r0), [[1, 1, 0], [1, 1, 2]]) and pts_match(as_arrays(r1), [[6, 1, 0], [6, 1, 2]]) and pts_match(as_arrays(r2), [[1, 1, 0], [1, 1, 2]])
+    if not ok:
+        ctx.fail("polyhedron-line:history", "intersect", {"cuboid": "0..2 cube", "history": "intersect, translate, intersect both"}, "two face points each", e0 or e1 or e2 or [as_arrays(r0), as_arrays(r1), as_arrays(r2)])
